@@ -100,7 +100,9 @@ def handleIx (a : Biogo.Alphabet.Alpha) (k : Nat) (s : List UInt8) (probes : Lis
         | .ok w => match kmerPositions built w with | .ok p => dots p | .error e => errObs e) ","
     let chk := check lk built
     let mChk := s!"{showBool chk.1}:{chk.2}"
-    let m := s!"ok f={mF} ix={mIx} sx={mSx} pr={mPr} ps={mPs} chk={mChk}"
+    -- the model's index is immutable: whatever the caller does with earlier answers, asking again
+    -- gives the same answers (`same`)
+    let m := s!"ok f={mF} ix={mIx} sx={mSx} pr={mPr} ps={mPs} chk={mChk} ix2=same sx2=same pr2=same ps2=same"
     -- the statement, by a plain scan of the letters
     let ws := allWindows lk k s
     let wm := byWord ws
@@ -127,9 +129,21 @@ def handleIx (a : Biogo.Alphabet.Alpha) (k : Nat) (s : List UInt8) (probes : Lis
         | some got => if cmp want got then none else some s!"{name}: want={want.take 200} got={got.take 200}"
         | none => some s!"{name}: missing"
       let eq := fun (a b : String) => a == b
+      -- second answers, given after the caller edited and appended to every slice it got the first
+      -- time (`same` abbreviates "identical to the first answer"): C10 says of every query that
+      -- the positions reported are the occurrences, so these equal the plain scan too
+      let chkTok2 (name want : String) (cmp : String → String → Bool) : Option String :=
+        match field toks (name ++ "2"), field toks name with
+        | some got2, some got1 =>
+          let got := if got2 == "same" then got1 else got2
+          if cmp want got then none
+          else some s!"{name}2 (asked again after the caller edited the first answers): want={want.take 200} got={got.take 200}"
+        | _, _ => some s!"{name}2: missing"
       match (chkTok "f" wF eq).orElse fun _ => (chkTok "ix" wIx eq).orElse fun _ =>
             (chkTok "sx" wSx eq).orElse fun _ => (chkTok "pr" wPr listMatches).orElse fun _ =>
-            (chkTok "ps" wPs listMatches).orElse fun _ => chkTok "chk" wChk eq with
+            (chkTok "ps" wPs listMatches).orElse fun _ => (chkTok "chk" wChk eq).orElse fun _ =>
+            (chkTok2 "ix" wIx eq).orElse fun _ => (chkTok2 "sx" wSx eq).orElse fun _ =>
+            (chkTok2 "pr" wPr listMatches).orElse fun _ => chkTok2 "ps" wPs listMatches with
       | some why => fail why tags
       | none => if m == obs then ok tags else diff (m.take 2000).toString tags
 
